@@ -112,6 +112,13 @@ class FileResolver:
         result.sort()
         return result
 
+    def includes_explicit_file(self, path: Path) -> bool:
+        """
+        Whether a file named explicitly would be part of the result of `resolve()`: it
+        bypasses the exclusion and ignore rules (unless `force_exclude`), not the size limit.
+        """
+        return self._should_include_explicit(path)
+
     def _should_include_explicit(self, path: Path) -> bool:
         """Check if an explicitly-named file should be included."""
         if self._config.force_exclude:
